@@ -4,12 +4,16 @@
    Vocabulary (Model/Deps.v): [arg] = what can stand in an argument position of a Task (plain value,
    task, list/tuple/dict of args, AGetitem base idx = base[idx] with base AND idx arbitrary args,
    AFun base f = Tasklet(base, f), AMapSeq / AMapSlice = jug.mapreduce block_access(_slice),
-   ACustom = CustomHash, ANoHash* = NoHash, AOpaque = an object value() does not look into).
+   ACustom = CustomHash, ANoHash* = NoHash, AOpaque declared v = an object value() hands over as it is;
+   [declared] = the tasks inside it that Task.dependencies() yields all the same: those of an instance of a
+   list/tuple/dict SUBCLASS (namedtuple, OrderedDict, defaultdict ...: isinstance in the walk, exact type
+   test in value()); [] for a set/frozenset or any other object, which neither looks into).
    [st : tid -> option val] is the store (results by task hash) - the ONLY keys it has are task ids:
    a derived object has no entry of its own.  [resolve st a] = value(a): [Ok v], [Missing] (a result
    that is needed is not stored: Task.load's assertion) or [Raised] (an operation raised).
    [impl_deps a] = what Task.dependencies() of a consumer of [a] yields (the code's walk);
-   [occurs t a] = t occurs syntactically in [a] outside NoHash/opaque objects. *)
+   [occurs t a] = t occurs syntactically in [a] outside NoHash and outside objects nobody looks into
+   (for AOpaque: t is one of the declared inner tasks). *)
 From Coq Require Import List Arith ZArith Bool PArith.
 From JugV Require Import Model.MapReduce Model.Slice Model.Deps Proofs.DepsFacts Proofs.DepsInvalidateFacts.
 From JugV Require Model.Dag Model.Invalidate.
@@ -188,6 +192,27 @@ Theorem C16_invalidated_with_underlying_cli : forall (d : Dag.dag) (m : Invalida
 Proof. exact consumer_invalidated_by_cli. Qed.
 Print Assumptions C16_invalidated_with_underlying_cli.
 
+(* ---- opaque objects with declared inner tasks (container-subclass instances holding tasks) ------------- *)
+(* the object reaches the function unchanged (inner tasks stay task objects), whatever the store holds ... *)
+Theorem C16_opaque_unchanged : forall (st : tid -> option val) (declared : list tid) (v : val),
+  resolve st (AOpaque declared v) = Ok v.
+Proof. exact resolve_opaque. Qed.
+Print Assumptions C16_opaque_unchanged.
+
+(* ... its consumer nevertheless waits for the declared inner tasks ... *)
+Theorem C16_opaque_declared_waits : forall (t : task) (declared : list tid) (v : val) (u : tid),
+  In (AOpaque declared v) (t_args t) -> In u declared -> In u (task_deps t).
+Proof. exact opaque_declared_waits. Qed.
+Print Assumptions C16_opaque_declared_waits.
+
+(* ... and is invalidated with each of them *)
+Theorem C16_opaque_declared_invalidated : forall (d : Dag.dag) (name : positive) (t : task) (declared : list tid) (v : val) (u : tid),
+  In (dag_node name t) d -> In (AOpaque declared v) (t_args t) -> In u declared ->
+  Dag.depends_on d (t_id t) u /\ In (t_id t) (Invalidate.shell_invalid d u).
+Proof. exact (fun d name t ts v u Hin Ha Hu => conj (opaque_declared_depends d name t ts v u Hin Ha Hu)
+                                                     (opaque_declared_invalidated_by_shell d name t ts v u Hin Ha Hu)). Qed.
+Print Assumptions C16_opaque_declared_invalidated.
+
 (* ---- non-vacuity: a concrete nested argument ---------------------------------------------------------- *)
 (* tasks 1..3 hold  {0: [10, 20, 30], 7: 5},  (0, 2)  and  0 ;  blocks 4, 5, 6 hold the pieces of
    [100..106] for map_step 3.
@@ -230,4 +255,20 @@ Proof.
   split; [reflexivity|]. split; [reflexivity|]. split; [reflexivity|].
   split; [split; [repeat constructor | split; [reflexivity | repeat constructor]]|].
   split; [vm_compute; reflexivity|]. split; vm_compute; reflexivity.
+Qed.
+
+(* Pt(t1, t3) - a namedtuple holding two tasks - next to frozenset({t2}): the first declares its tasks, the
+   second does not; both reach the function as they are, even in the empty store *)
+Definition ex_nt : arg := AOpaque [1; 3] (VTuple [VTaskRef 1; VTaskRef 3]).
+Definition ex_fs : arg := AOpaque [] (VAtom 5).
+Definition ex_task2 : task := {| t_id := 8; t_fn := 2; t_args := [ex_nt; ex_fs]; t_kwargs := [] |}.
+Example C16_opaque_nonvacuous :
+  task_deps ex_task2 = [1; 3] /\
+  task_run (fun _ => FkApp) (fun _ => None) ex_task2 = FRet (VApp 2 [VTuple [VTaskRef 1; VTaskRef 3]; VAtom 5] []) /\
+  Dag.depends_on [(1, 1, []); (3, 1, []); dag_node 2 ex_task2] 8 3 /\
+  In 8 (Invalidate.shell_invalid [(1, 1, []); (3, 1, []); dag_node 2 ex_task2] 3).
+Proof.
+  split; [reflexivity|]. split; [reflexivity|]. split.
+  - apply (opaque_declared_depends _ 2 ex_task2 [1; 3] (VTuple [VTaskRef 1; VTaskRef 3]) 3); cbn; auto.
+  - vm_compute. auto.
 Qed.
